@@ -262,7 +262,7 @@ where
             let sub = sub.to_string();
             hs.push(
                 std::thread::Builder::new()
-                    .stack_size(256 << 20)
+                    .stack_size(128 << 20)
                     .spawn_scoped(sc, move || match guarded(|| shard_loop(&ctx, &sub, shard, per, mk, test, render, shared)) {
                         Ok(r) => r,
                         Err((loc, msg)) => {
@@ -400,6 +400,7 @@ where
                 }
                 drop(ig);
                 remaining = remaining.saturating_sub(done + 1);
+                crate::supervise::journal_clear();
             }
             Err(TestError::Abort(why)) => {
                 rep.inconclusive.push(format!("{} shard {}: proptest aborted: {}", sub, shard, why));
@@ -407,6 +408,7 @@ where
             }
         }
     }
+    crate::supervise::journal_clear();
     rep
 }
 
@@ -433,7 +435,7 @@ pub fn par_map(ctx: &Ctx, sub: &str, n: u64, work: impl Fn(u64, &mut SubReport) 
             let sub = sub.to_string();
             hs.push(
                 std::thread::Builder::new()
-                    .stack_size(256 << 20)
+                    .stack_size(128 << 20)
                     .spawn_scoped(sc, move || {
                         let mut rep = SubReport::new(&sub);
                         loop {
@@ -445,6 +447,7 @@ pub fn par_map(ctx: &Ctx, sub: &str, n: u64, work: impl Fn(u64, &mut SubReport) 
                                 rep.inconclusive.push(format!("{}: harness panic in work item {} at {}: {}", sub, i, loc, msg));
                             }
                         }
+                        crate::supervise::journal_clear();
                         rep
                     })
                     .unwrap(),
